@@ -557,6 +557,9 @@ def run_haplotag(
             raise CommandLineError(f"Error while loading alignment file {alignment_file}: {err}")
         # This checks also sample compatibility with VCF
         shared_samples = compute_shared_samples(bam_reader, ignore_read_groups, use_vcf_samples)
+        # Process the samples in the order of the VCF columns, not in set order: with
+        # --ignore-read-groups all samples share their keys and the sample processed last decides
+        shared_samples = [sample for sample in vcf_reader.samples if sample in shared_samples]
 
         # Check if user has specified a subset of regions per chromosome
         user_regions = normalize_user_regions(regions, bam_reader.references)
